@@ -49,7 +49,9 @@ def _run_batch1(scenarios, workdir, timeout_per=60):
         if guard > n + 5:
             raise Inconclusive("scenario runner keeps restarting")
         try:
-            p = subprocess.run([os.path.join(BUILD, "vh"), "run", "-in", scf, "-out", outdir, "-from", str(start)],
+            # front-end scenarios run in the binary that has cmd/aws-lambda-rie's handlers linked in
+            binary = "vhfe" if scenarios and scenarios[0].get("opt", {}).get("frontEnd") else "vh"
+            p = subprocess.run([os.path.join(BUILD, binary), "run", "-in", scf, "-out", outdir, "-from", str(start)],
                                env=goenv(), stdout=subprocess.PIPE, stderr=subprocess.PIPE, text=True, errors="replace",
                                timeout=timeout_per * (n - start) + 60)
             rc, err = p.returncode, p.stderr
@@ -175,6 +177,26 @@ def run_and_validate(ctx, scenarios, tag, bound=None, batch=12, module="Trace_Ra
                 ctx.known_finding(kf, what)
             else:
                 ctx.violation(rd, what)
+    # front-end scenarios: the events of cmd/aws-lambda-rie's handler are validated against spec/Trace_FrontEnd.tla
+    fe_items = [(s, e) for s, e in items if s.get("opt", {}).get("frontEnd")]
+    if fe_items:
+        import feprep
+        fv = feprep.validate(fe_items)
+        if fv.error:
+            raise Inconclusive("front-end trace validation failed to run: %s" % fv.error[-2000:])
+        timeouts += fv.timeouts
+        log("E3 front end: %d traces, %d accepted, %d rejected (spec/Trace_FrontEnd.tla)" % (len(fe_items), len(fv.accepted), len(fv.rejected)))
+        summary["fe_accepted"] = len(fv.accepted)
+        summary["fe_rejected"] = len(fv.rejected)
+        summary["tlc_states"] += fv.tlc_states
+        summary["tlc_generated"] += fv.tlc_generated
+        for sid, idx, unmatched, detail in fv.rejected:
+            s = byid[sid]
+            rd = ctx.replay_dir("%s-fe-%s" % (tag, sid))
+            evs = dict((x[0]["id"], x[1]) for x in fe_items)[sid]
+            _store(rd, ctx.prop, s, evs, extra={"unmatched": unmatched, "line": idx, "mode": "frontend"})
+            ctx.violation(rd, "front-end trace of scenario %s is not a behaviour of spec/FrontEnd.tla: no step of the handler "
+                              "explains event #%d %s" % (sid, (unmatched or {}).get("src", -1), _short(unmatched)))
     summary["validation_timeouts"] = timeouts
     hangs = [o for o in outcomes.values() if o["status"] == "hang"]
     summary["wall_s"] = round(time.time() - t0, 1)
